@@ -303,12 +303,43 @@ func longRun(f Op, args []string, d time.Duration) string {
 }
 
 func c10cellRun(a []string) string {
-	kind, oc := a[0], a[1]
-	withShare := oc != "noshare"
-	w := newC10World(2, withShare)
+	w := newC10World(2, a[1] != "noshare")
 	defer w.close()
+	return w.cell(a[0], a[1])
+}
+
+// C10.seq <kind:outcome,…>   cells one after another on ONE relayer (one ECDSA store, one FROST store, one
+//   coordinator, the same session id re-used) => the per-cell outputs joined by '|', counters cumulative per store
+func c10seq(a []string) string {
+	w := newC10World(2, true)
+	defer w.close()
+	outs := []string{}
+	for _, it := range items(a[0], ",") {
+		f := strings.Split(it, ":")
+		r := w.cell(f[0], f[1])
+		outs = append(outs, r)
+		if strings.HasPrefix(r, "hang") {
+			break
+		}
+	}
+	return strings.Join(outs, "|")
+}
+
+// cell runs one session of a real process of `kind` with outcome `oc` on relayer 0 of this world.
+func (w *c10world) cell(kind, oc string) string {
 	nd := w.nodes[0]
+	nd.coord.CoordinatorTimeout, nd.coord.TssTimeout, nd.coord.InitiatePeriod = time.Hour, time.Hour, time.Hour
+	for _, c := range []*lockCounter{nd.ec.c, nd.fr.c} {
+		c.mu.Lock()
+		c.runProbe = ""
+		c.mu.Unlock()
+	}
 	sid := w.sidWithCoordinator("s", 1)
+	// (handleError's fail-watch of a retryable process that just returned releases its subscription a moment after
+	// Execute has returned: let the previous cell settle before counting)
+	waitUntil(2*time.Second, func() bool { return nd.ledger.inner.VerifLiveSubscriptions(sid) == 0 })
+	live0 := nd.ledger.inner.VerifLiveSubscriptions(sid)
+	bc0 := nd.ledger.bcasts(sid, c10msgType(kind))
 	threshold := 1
 	if oc == "rejected" && strings.HasSuffix(kind, "keygen") {
 		threshold = 7 // more than the three parties can satisfy
@@ -340,7 +371,7 @@ func c10cellRun(a []string) string {
 	ret := make(chan error, 1)
 	go func() { ret <- nd.coord.Execute(ctx, []tss.TssProcess{proc}, make(chan interface{}, 4)) }()
 	ghost := w.nodes[1].ledger
-	subscribed := func() bool { return nd.ledger.inner.VerifLiveSubscriptions(sid) >= 3 }
+	subscribed := func() bool { return nd.ledger.inner.VerifLiveSubscriptions(sid) >= live0+3 }
 	flow := true
 	switch oc {
 	case "cancel":
@@ -370,7 +401,7 @@ func c10cellRun(a []string) string {
 			if kind == "ekeygen" {
 				first = 150 * time.Second // safe-prime generation inside Party.Start
 			}
-			ran = waitUntil(first, func() bool { return nd.ledger.bcasts(sid, mt) > 0 })
+			ran = waitUntil(first, func() bool { return nd.ledger.bcasts(sid, mt) > bc0 })
 			for last, since := nd.ledger.bcasts(sid, mt), time.Now(); time.Since(since) < 600*time.Millisecond; {
 				time.Sleep(5 * time.Millisecond)
 				if n := nd.ledger.bcasts(sid, mt); n != last {
@@ -409,6 +440,9 @@ func c10cellRun(a []string) string {
 		if os.Getenv("VERIF_DUMP") != "" {
 			buf := make([]byte, 1<<20)
 			os.Stderr.Write(buf[:runtime.Stack(buf, true)])
+		}
+		if os.Getenv("VERIF_DUMP") != "" {
+			fmt.Fprintf(os.Stderr, "HANGREASON kind=%s oc=%s flow=%v r=%s live=%d live0=%d\n", kind, oc, flow, r, nd.ledger.inner.VerifLiveSubscriptions(sid), live0)
 		}
 		return "hang;" + cnt.String()
 	}
@@ -611,6 +645,7 @@ func init() {
 	ops["C10.full"] = c10full
 	ops["C10.stuck"] = c10stuck
 	ops["C10.cell"] = c10cell
+	ops["C10.seq"] = c10seq
 	gens["C10"] = genC10
 }
 
@@ -640,6 +675,23 @@ func genC10(g *G) {
 			}
 			g.Emit("cell", k, oc)
 		}
+	}
+	// sequences of sessions sharing the stores (kinds on the ECDSA store and on the FROST store interleaved)
+	seqKinds := []string{"ekeygen", "fkeygen", "eresharing", "fresharing", "esigning", "fsigning"}
+	seqOuts := []string{"refused", "silent", "gto", "cancel", "rejected"}
+	g.Emit("seq", "eresharing:refused,esigning:silent,ekeygen:cancel,eresharing:rejected,fkeygen:refused,fresharing:gto,fsigning:rejected")
+	for i := 0; i < g.Count(6, 60); i++ {
+		n := 2 + g.Intn(6)
+		xs := []string{}
+		for j := 0; j < n; j++ {
+			k := g.Pick(seqKinds)
+			oc := g.Pick(seqOuts)
+			if g.Intn(5) == 0 && strings.HasPrefix(k, "e") && k != "ekeygen" {
+				oc = "failed"
+			}
+			xs = append(xs, k+":"+oc)
+		}
+		g.Emit("seq", strings.Join(xs, ","))
 	}
 	g.Emit("stuck", "eresharing")
 	g.Emit("stuck", "esigning")
